@@ -81,6 +81,8 @@ structure Tx where
   contractOutputs : List Output := []
   /-- the transaction carries contract requests (`verifyRWSetPermission` passes directly otherwise) -/
   hasRequests : Bool := false
+  /-- the methods (abstract ids) the carried requests call, in order -/
+  calls : List Nat := []
   /-- the writes of `TxOutputsExt` into the access-control tables, in order -/
   aclWrites : List AclWrite := []
 deriving DecidableEq, Repr
@@ -88,6 +90,8 @@ deriving DecidableEq, Repr
 structure Env where
   acctOk : Nat → List AuthReq → Bool      -- IdentifyAccount(account, AuthRequire-style uris)
   acctExists : Nat → Bool                 -- queryAccountACL finds an ACL
+  /-- CheckContractMethodPerm(users, contract, method) for the method with this id (no stored rule: open) -/
+  methodOk : Nat → List AuthReq → Bool := fun _ _ => true
 
 /-- `IdentifyAK` / `VerifySign`: key hashes to the address and the signature verifies -/
 def identifyAK (a : Addr) (s : Sig) : Bool := s.keyAddr == some a && s.sigOk
@@ -278,13 +282,22 @@ def rwPermLoop (e : Env) (auth : List AuthReq) : List AclWrite → List Name →
       if v.contains (.account n) then rwPermLoop e auth rest v
       else if e.acctOk n auth then rwPermLoop e auth rest (.account n :: v) else false
 
+/-- `removeDuplicateUser`: an address initiator and the AuthRequire entries, each once -/
+def users (t : Tx) : List AuthReq :=
+  ((match t.initiator with
+    | .ak a => [(⟨none, a⟩ : AuthReq)]
+    | _ => []) ++ t.authRequire).eraseDups
+
+/-- `verifyContractPermission`: the rule of every called method is satisfied by the users -/
+def methodPerm (e : Env) (t : Tx) : Bool := t.calls.all (fun m => e.methodOk m (users t))
+
 /-- the stages of `ImmediateVerifyTx` that decide on signatures and access control -/
 inductive Stage where
-  | txid | sigs | utxo | rwperm
+  | txid | sigs | utxo | method | rwperm
 deriving DecidableEq, Repr
 
-/-- the first stage that refuses (`none`: all pass); the stages this model does not cover (method
-rules, amounts, re-execution) are taken to pass -/
+/-- the first stage that refuses (`none`: all pass); the stages this model does not cover (amounts,
+re-execution) are taken to pass -/
 def firstRefusal (e : Env) (t : Tx) : Option Stage :=
   if !t.txidOk then some .txid else
   match verifySignatures e t with
@@ -292,7 +305,9 @@ def firstRefusal (e : Env) (t : Tx) : Option Stage :=
   | some v =>
     match utxoLoopV e t.authRequire (byContract t.contractInputs) t.inputs v with
     | none => some .utxo
-    | some v' => if !t.hasRequests || rwPermLoop e t.authRequire t.aclWrites v' then none else some .rwperm
+    | some v' =>
+      if !methodPerm e t then some .method
+      else if !t.hasRequests || rwPermLoop e t.authRequire t.aclWrites v' then none else some .rwperm
 
 /-- the two results `(ok, err ≠ nil)` of `ImmediateVerifyTx` / `State.VerifyTx` -/
 structure Verdict where
